@@ -38,6 +38,18 @@ class HarnessError(RuntimeError):
     pass
 
 
+def target(value, label=''):
+    """steer Hypothesis' targeted search towards larger values of an observable (no-op outside a generated run)"""
+    try:
+        import math
+        import hypothesis
+        v = float(value)
+        if math.isfinite(v):
+            hypothesis.target(v, label=label)
+    except Exception:
+        pass
+
+
 def require(cond, clause, msg=''):
     if not cond:
         raise Violation(clause, msg() if callable(msg) else msg)
@@ -280,7 +292,7 @@ def run_shard(args):
             return out
         test = given(sub.strategy)(wrapped)
         test = settings(max_examples=n, database=None, deadline=None, derandomize=False, report_multiple_bugs=False,
-                        suppress_health_check=list(HealthCheck), phases=[Phase.generate, Phase.shrink],
+                        suppress_health_check=list(HealthCheck), phases=[Phase.generate, Phase.target, Phase.shrink],
                         print_blob=False)(test)
         test = hypothesis.seed(seed)(test)
         try:
